@@ -268,6 +268,19 @@ def F_rules(ctx, rule="F"):
         n_internal += 1
         ctx.cover(rule + "1", b.id)
         where = m.where(b, rs[0]["bb"])
+        # F6: the driver of the per-item futures runs every started future to completion (no short-circuit on a failure)
+        x = b
+        cons = None
+        while x is not None and cons is None:
+            uses = fl.closure_uses(x) if x.kind == "closure" else []
+            if uses:
+                cons = callee_path(uses[0][2])
+            x = fb.bodies.get(x.parent) if x.parent else None
+        SHORT = ("try_for_each_concurrent", "try_for_each", "try_fold", "take_while", "try_collect", "try_buffer_unordered", "try_buffered")
+        if cons is not None:
+            ctx.check(cons == FOR_EACH_CONCURRENT or cons.split("::")[-1] not in SHORT, rule + "6", "driver|%s" % key, where,
+                      "the per-item futures are driven by %s: a failing function does not cancel the in-flight ones" % cons.split("::")[-1],
+                      "the per-item futures are driven by %s, which stops at the first Err and drops every in-flight function future mid-way" % cons)
         # F1: exactly one RESULT send, carrying the user's error, on the Err arm
         ok1 = len(rs) == 1 and not b.back_edges_in_user_code() if hasattr(b, "back_edges_in_user_code") else len(rs) == 1
         vs = fl.sources_operand(b, rs[0]["t"]["args"][1])
@@ -870,6 +883,43 @@ def O_rules(ctx, rule="O"):
                       "the state is derived from %s" % [fmt_src(s) for s in srcs][:4])
         ctx.entry_floor(rule + "3", rule + "3", ("fold", "for_each", "try_fold", "try_for_each"), "call of the state mapping")
     O4(ctx, rule + "4")
+
+
+def O5(ctx, rule="O5"):
+    """Who may make an outcome: on the streaming paths every StreamOutcome is
+    produced by StreamOutcome::new (state and lists computed from the run) and
+    afterwards only transformed by map/replace*; no path returns a literal, a
+    Default or a `finished_with` outcome."""
+    m, fb = ctx.model, ctx.fb
+    bodies = set()
+    for e in m.entries:
+        if m.family(e) != "stream":
+            bodies |= m.reach(e["id"])
+    n_new = 0
+    bad = []
+    for bid in sorted(bodies):
+        b = fb.bodies[bid]
+        if bid.startswith("stream_outcome::") or bid.startswith("<stream_outcome::"):
+            continue
+        for bb, t in b.calls():
+            p = callee_path(t) or ""
+            r = ((t.get("callee") or {}).get("resolved") or {})
+            rp = r.get("path", "") if isinstance(r, dict) else ""
+            if p == "stream_outcome::StreamOutcome::<T>::new":
+                n_new += 1
+            elif t["dest"]["ty"].startswith("stream_outcome::StreamOutcome<") and (
+                    p in ("std::default::Default::default", "stream_outcome::StreamOutcome::<T>::finished_with") or "stream_outcome::StreamOutcome" in rp and rp.endswith("::default")):
+                bad.append((b, bb, "call to %s" % (rp or p)))
+        for bb, si, s_ in b.stmts():
+            if s_["k"] == "assign" and s_["rv"]["k"] == "agg" and s_["rv"].get("def") == "stream_outcome::StreamOutcome":
+                bad.append((b, bb, "struct literal"))
+    for b, bb, why in bad:
+        ctx.bad(rule, "outcome-source|%s" % short(b.id), m.where(b, bb),
+                "a streaming path makes a StreamOutcome by %s instead of StreamOutcome::new: its state and id lists do not reflect the run (e.g. NotStarted for an empty graph)" % why)
+    if not bad:
+        ctx.ok(rule, "outcome-source", "-", "%d bodies on the fold/for_each paths: every StreamOutcome comes from StreamOutcome::new (%d call sites)" % (len(bodies), n_new))
+    if n_new < 4:
+        ctx.unverifiable(rule, "floor", "-", "expected >= 4 StreamOutcome::new call sites on the streaming paths, found %d" % n_new)
 
 
 def O3b(ctx, rule="O3b"):
